@@ -550,6 +550,18 @@ def _vstack_params(shapes, axis):
     return oshape, indices
 
 
+def _stack_output(xp, output, oshape, output_n):
+    # Allocate the stacked output with the dtype of the blocks' outputs
+    # (not of the input), promoting if a later block needs a wider dtype.
+    if output is None:
+        return xp.empty(oshape, dtype=output_n.dtype)
+
+    if not xp.can_cast(output_n.dtype, output.dtype):
+        return output.astype(xp.promote_types(output.dtype, output_n.dtype))
+
+    return output
+
+
 class Vstack(Linop):
     """Vertically stack linear operators.
 
@@ -582,7 +594,7 @@ class Vstack(Linop):
         device = backend.get_device(input)
         xp = device.xp
         with device:
-            output = xp.empty(self.oshape, dtype=input.dtype)
+            output = None
             for n, linop in enumerate(self.linops):
                 if n == 0:
                     start = 0
@@ -594,8 +606,10 @@ class Vstack(Linop):
                 else:
                     end = self.indices[n]
 
+                output_n = linop(input)
+                output = _stack_output(xp, output, self.oshape, output_n)
                 if self.axis is None:
-                    output[start:end] = linop(input).ravel()
+                    output[start:end] = output_n.ravel()
                 else:
                     ndim = len(linop.oshape)
                     axis = self.axis % ndim
@@ -604,7 +618,7 @@ class Vstack(Linop):
                         + [slice(start, end)]
                         + [slice(None)] * (ndim - axis - 1)
                     )
-                    output[slc] = linop(input)
+                    output[slc] = output_n
 
         return output
 
@@ -648,7 +662,7 @@ class Diag(Linop):
         device = backend.get_device(input)
         xp = device.xp
         with device:
-            output = xp.empty(self.oshape, dtype=input.dtype)
+            output = None
             for n, linop in enumerate(self.linops):
                 if n == 0:
                     istart = 0
@@ -679,6 +693,7 @@ class Diag(Linop):
 
                     output_n = linop(input[islc])
 
+                output = _stack_output(xp, output, self.oshape, output_n)
                 if self.oaxis is None:
                     output[ostart:oend] = output_n.ravel()
                 else:
